@@ -118,6 +118,29 @@ pub fn run_lo(dir: &str, k: usize, samples: &[Vec<Vec<u8>>], reference: Option<&
     lo_on_file(dir, reference, extra, threads, hash_seed)
 }
 
+/// How the reference FASTA of `lo -r` is laid out (set by C17 per case; 0 = one line, LF).
+pub static REF_DRESS: std::sync::atomic::AtomicUsize = std::sync::atomic::AtomicUsize::new(0);
+
+/// 0: one line, LF; 1: lines of 60, LF; 2: lines of 70, CRLF; 3: header with description, lines of 50, no final newline
+pub fn dressed_reference(r: &[u8], dress: usize) -> Vec<u8> {
+    let (width, eol, header): (usize, &[u8], &str) = match dress % 4 {
+        0 => (r.len().max(1), b"\n", ">refgenome"),
+        1 => (60, b"\n", ">refgenome"),
+        2 => (70, b"\r\n", ">refgenome"),
+        _ => (50, b"\n", ">refgenome complete genome, len=x"),
+    };
+    let mut out = header.as_bytes().to_vec();
+    out.extend_from_slice(eol);
+    for chunk in r.chunks(width) {
+        out.extend_from_slice(chunk);
+        out.extend_from_slice(eol);
+    }
+    if dress % 4 == 3 {
+        out.pop();
+    }
+    out
+}
+
 pub fn lo_on_file(dir: &str, reference: Option<&[u8]>, extra: &[&str], threads: usize, hash_seed: Option<u64>) -> Result<LoOut, String> {
     for f in ["out_snps.fas", "out_snps.vcf", "out_pseudo_genomes.fas", "out_indels.vcf"] {
         let _ = std::fs::remove_file(format!("{dir}/{f}"));
@@ -125,7 +148,7 @@ pub fn lo_on_file(dir: &str, reference: Option<&[u8]>, extra: &[&str], threads: 
     let ts = threads.to_string();
     let mut a: Vec<&str> = vec!["lo", "in.skf", "out", "--threads", &ts];
     if let Some(r) = reference {
-        std::fs::write(format!("{dir}/ref.fa"), crate::scratch::fasta_named(&[("refgenome".into(), r.to_vec())])).unwrap();
+        std::fs::write(format!("{dir}/ref.fa"), dressed_reference(r, REF_DRESS.load(std::sync::atomic::Ordering::Relaxed))).unwrap();
         a.extend(["-r", "ref.fa"]);
     }
     a.extend(extra.iter());
